@@ -23,7 +23,8 @@ all of them and every bit position of key / nonce / ephemeral key must be set in
 encrypted archives (encrypt, compress+encrypt with incompressible data) whose names and contents are unique high-entropy \
 markers, incl. flushes and piece sizes around the cipher buffer and the chunk: no 16-byte window of any content and no \
 name may occur in the bytes after the header; (recipients) recipient sets of 1..5 and up to 400 x candidate key lists (a recipient key at \
-every position among decoys, decoys only, empty): the archive opens and reads iff the list holds a recipient key, else Err. \
+every position among decoys, decoys only, empty): the archive opens and reads iff the list holds a recipient key, else Err; in half of the cases the reader configuration \
+is taken back from the reader and must open a second archive for the same recipients. \
 Non-trivial = fresh: every pair; plaintext: archive with >= 2 chunks; recipients: key list of length >= 2. \
 distinct = hash of the case. 'Never repeated' cannot be established by testing: constant seeding, key/nonce reuse across \
 archives or processes, gross entropy loss and any write path that bypasses the cipher are what this detects.";
@@ -304,6 +305,32 @@ fn recipients(c: &RecipCase, st: &mut Stats) -> Result<(), String> {
             }
             if files.get("secret").map(|f| &f.data) != Some(&content) {
                 return Err("content read with a recipient key differs".into());
+            }
+            // the same reader configuration serves a second archive for the same recipients (an application keeps
+            // one configuration): taken back from the first reader, it must still open with the recipient's key
+            if c.seed % 2 == 0 {
+                let second = {
+                    let mut w = ArchiveWriter::from_config(Vec::new(), prog::writer_config_via((c.seed % 8) as u8, layers, 1, &keys.publics)).map_err(|e| format!("HARNESS: {e:?}"))?;
+                    w.add_file("again", content.len() as u64, content.as_slice()).map_err(|e| format!("HARNESS: {e:?}"))?;
+                    w.finalize().map_err(|e| format!("HARNESS: {e:?}"))?;
+                    w.into_raw()
+                };
+                let r2 = util::catch(|| -> Result<Vec<u8>, String> {
+                    let rd = mla::ArchiveReader::from_config(std::io::Cursor::new(&bytes[..]), prog::reader_config(&cand)).map_err(|e| format!("first open: {e:?}"))?;
+                    let cfg = rd.config;
+                    let mut rd2 = mla::ArchiveReader::from_config(std::io::Cursor::new(&second[..]), cfg).map_err(|e| format!("second archive, configuration taken back from the first reader: {e:?}"))?;
+                    let mut f = rd2.get_file("again".to_string()).map_err(|e| format!("{e:?}"))?.ok_or("second archive: file missing")?;
+                    let mut v = Vec::new();
+                    std::io::Read::read_to_end(&mut f.data, &mut v).map_err(|e| format!("{e:?}"))?;
+                    Ok(v)
+                });
+                st.label("reader configuration reused for a second archive");
+                match r2 {
+                    Ok(Ok(v)) if v == content => {}
+                    Ok(Ok(_)) => return Err("second archive read through the reused configuration: content differs".into()),
+                    Ok(Err(e)) => return Err(format!("a reader configuration holding a recipient key does not open a second archive: {e}")),
+                    Err(p) => return Err(format!("reusing the reader configuration panics: {}", p.short())),
+                }
             }
             Ok(())
         }
